@@ -31,7 +31,7 @@ def cfg(tier):
 def bounds(tier):
     c = cfg(tier)
     return {'all paths (order, DIM, N, overload)': [list(x) for x in c['full']], 'paths within k flipped decisions of the all-valid path (order, DIM, N, overload, k)': [list(x) for x in c['flips']],
-            'initialisation sequences': 'all sequences up to length %d over {valid(dur), valid(tp), NaN duration, short duration, inf waypoint, NaN end state, row mismatch, no segments, empty time points}' % c['seqlen'],
+            'initialisation sequences': 'all sequences up to length %d over {valid(dur), valid(tp), NaN duration, short duration, inf waypoint, NaN end state, row mismatch, no segments, empty time points, time points not increasing, time points closer than 1 ms}' % c['seqlen'],
             'PPolyND': 'types <2,dyn> <3,6> <3,8> <2,4>; breakpoints 0..3; rows off by -1/0/+1; coefficient counts 1, ORDER, ORDER+1, ORDER+2; rejected update on a valid object; at() on 7 index classes'}
 
 
@@ -109,6 +109,8 @@ def coherence(sc, g, pre, ok, stored_ok=None):
     sc.int_eq('isValid() == verdict', pre + 'V.isValid', ok)
     sc.int_eq('operator bool == verdict', pre + 'V.bool', ok)
     sc.int_eq('getLastError() empty iff the verdict is true', pre + 'V.errEmpty', ok)
+    if stored_ok == 'open':
+        return
     ck = ok if stored_ok is None else stored_ok
     sc.int_eq('checkValidity(&msg) judges the stored problem', pre + 'V.check', ck)
     sc.int_eq('checkValidity message empty iff it returns true', pre + 'V.msgEmpty', ck)
@@ -196,7 +198,7 @@ def run_task(t):
 
 
 # ---------------------------------------------------------------------- sequences on one object
-STEPS = ['Vd', 'Vt', 'Ihnan', 'Ihsmall', 'Ipinf', 'Ibc', 'Irows', 'Inoseg', 'Iempty']
+STEPS = ['Vd', 'Vt', 'Ihnan', 'Ihsmall', 'Ipinf', 'Ibc', 'Irows', 'Inoseg', 'Iempty', 'Itdec', 'Itsmall']
 
 
 def emit_step(s, o, d, step, idx, rng):
@@ -223,12 +225,15 @@ def emit_step(s, o, d, step, idx, rng):
         s.add('opt.init O', pre, 'dur', N, *h, rows - 1, *P[:(rows - 1) * d], pr.t0, pr.bcname); exp = 0
     elif step == 'Inoseg':
         s.add('opt.init O', pre, 'dur', 0, 1, *P[:d], pr.t0, pr.bcname); exp = 0
-    elif step in ('Vt', 'Iempty'):
+    elif step in ('Vt', 'Iempty', 'Itdec', 'Itsmall'):
         q, acc = [], rng.uniform(-1, 1)
         for i in range(N + 1):
-            q.append(s.var('%sq%d' % (tag, i), round(acc, 3)))
-            acc += rng.uniform(0.6, 1.7)
-        if step == 'Vt':
+            q.append(s.var('%sq%d' % (tag, i), round(acc, 3 if not (i == N and step == 'Itsmall') else 6)))
+            # time-point overload with invalid spacing: the last point not after its predecessor / closer than one millisecond
+            acc += rng.uniform(0.6, 1.7) if not (i == N - 1 and step in ('Itdec', 'Itsmall')) else (-0.25 if step == 'Itdec' else 0.0003)
+        if step in ('Itdec', 'Itsmall'):
+            exp = 0
+        if step in ('Vt', 'Itdec', 'Itsmall'):
             s.add('opt.init O', pre, 'tp', N + 1, *q, rows, *P, pr.bcname)
         else:
             s.add('opt.init O', pre, 'tp', 0, rows, *P, pr.bcname); exp = 0
@@ -261,6 +266,10 @@ def run_seq(t):
             sc.int_eq('step %s (%s): verdict' % (pre, st), pre + '.ok', exp)
             if st == 'Iempty':
                 coherence(sc, sc.dag, pre, exp, stored_ok=stored)
+            elif st in ('Itdec', 'Itsmall'):
+                # only what the statement fixes (return value, flag, boolean conversion, message); whether the rejected problem is stored is left open
+                coherence(sc, sc.dag, pre, exp, stored_ok='open')
+                stored = 'open'
             else:
                 coherence(sc, sc.dag, pre, exp)
                 stored = exp
